@@ -729,7 +729,7 @@ func (u *connectStreamingUnmarshaler) Unmarshal(message any) *Error {
 		// and never describes a failure.
 		u.endStreamErr.code = CodeUnknown
 	}
-	return errSpecialEnvelope
+	return newSpecialEnvelopeError()
 }
 
 func (u *connectStreamingUnmarshaler) Trailer() http.Header {
